@@ -244,16 +244,14 @@ static int json_patch_apply_move_copy(struct json_object **res,
 	}
 
 	from_s_len = strlen(from_s);
-	if (strncmp(from_s, path, from_s_len) == 0) {
+	if (move && strncmp(from_s, path, from_s_len) == 0 && path[from_s_len] == '/') {
 		/**
-		 * If lengths match, it's a noop, if they don't,
-		 * then we're trying to move a parent under a child
+		 * We're trying to move a parent under a child
 		 * which is not allowed as per RFC 6902 section 4.4
 		 *   The "from" location MUST NOT be a proper prefix of the "path"
 		 *   location; i.e., a location cannot be moved into one of its children.
+		 * (a prefix by reference tokens: "/a" is no prefix of "/ab")
 		 */
-		if (from_s_len == strlen(path))
-			return 0;
 		_set_err(EINVAL, "Invalid attempt to move parent under a child");
 		return -1;
 	}
@@ -264,6 +262,9 @@ static int json_patch_apply_move_copy(struct json_object **res,
 		_set_err_from_ptrget(errno, "from");
 		return rc;
 	}
+	/* moving an existing value onto itself changes nothing */
+	if (move && strcmp(from_s, path) == 0)
+		return 0;
 
 	// Note: it's impossible for json_pointer to find the root obj, due
 	// to the path check above, so from.parent is guaranteed non-NULL
